@@ -1,7 +1,7 @@
 """C08 — sort/merge ordering kernels: the per-column comparator of the merge cursors."""
 LEVEL = "proof"
 VERUS = []
-KANI = [dict(package="datafusion-physical-plan", timeout=2400, harnesses=[
+KANI = [dict(package="datafusion-physical-plan", timeout=900, harnesses=[
     dict(name="c08_array_values_compare", module="physical_plan/sorts_cursor.rs", complete=True,
          what="ArrayValues::{is_null, compare, eq, eq_to_previous, get_value, eq_to_single_row_value} over an arbitrary inner order (symbolic values), every SortOptions combination, every null threshold: compare is exactly the requested rule (NULL placement by nulls_first independent of direction; values by the inner order, reversed iff descending), eq <=> Equal, antisymmetric, transitive"),
 ])]
